@@ -302,30 +302,64 @@ def charIndicesOp (U : UFacts) (s : KStr) : Res :=
 
 /-! ## split -/
 
-/-- byte level `split(pattern)`: the remaining input is searched for the pattern, the piece before it
-is emitted and the search resumes after it; a final piece (possibly empty) is always emitted.
-With an empty pattern the loop never advances (the fuel runs out) — as the code. -/
-def splitB (pat : Bytes) : Nat → Bytes → List Bytes
+/-- byte level `split(pattern)` for a non-empty pattern: the remaining input is searched for the pattern,
+the piece before it is emitted and the search resumes after it; a final piece (possibly empty) is always
+emitted (`str::split`). The fuel is never the reason to stop when it exceeds the length
+(`splitNE_fuel_irrelevant`). -/
+def splitNE (pat : Bytes) : Nat → Bytes → List Bytes
   | 0, _ => []
   | fuel + 1, rest =>
     match findAt pat rest with
     | none => [rest]
-    | some e => rest.take e :: splitB pat fuel (rest.drop (e + pat.length))
+    | some e => rest.take e :: splitNE pat fuel (rest.drop (e + pat.length))
 
-/-- `Split::next`, collected (offsets + `with_bounds(..).unwrap()`) -/
-def splitLoop (s : KStr) (pat : Bytes) : Nat → Nat → Option (List KStr)
-  | 0, _ => some []
-  | fuel + 1, start =>
+/-- the empty pattern, after the first (empty) piece: one piece per character, then the empty rest -/
+def splitEmptyTail : Nat → Bytes → List Bytes
+  | 0, _ => []
+  | fuel + 1, rest =>
+    if rest.isEmpty then [[]]
+    else rest.take (gFirstChar rest) :: splitEmptyTail fuel (rest.drop (gFirstChar rest))
+
+/-- byte level `split(pattern)`. The empty pattern matches at every character boundary (`str::split`):
+`''`, every character, `''`. -/
+def splitB (pat : Bytes) (fuel : Nat) (s : Bytes) : List Bytes :=
+  if pat.isEmpty then [] :: splitEmptyTail fuel s else splitNE pat fuel s
+
+/-- `Split::next`, collected (offsets + `with_bounds(..).unwrap()`); state = `(start, started)`.
+With an empty pattern the first call matches at `start`, every later call at the end of the next
+character; when nothing is found the last piece `input[start..]` is yielded and `start = len + 1`. -/
+def splitLoop (s : KStr) (pat : Bytes) : Nat → Nat → Bool → Option (List KStr)
+  | 0, _, _ => some []
+  | fuel + 1, start, started =>
     if start ≤ s.len then
-      let e := match findAt pat (s.bytes.drop start) with
-        | some e => start + e
-        | none => s.len
-      match s.withBounds start e with
-      | none => none
-      | some t => (splitLoop s pat fuel (e + pat.length)).map (t :: ·)
+      if pat.isEmpty then
+        if started then
+          match s.bytes.drop start with
+          | [] =>
+            match s.withBounds start s.len with
+            | none => none
+            | some t => (splitLoop s pat fuel (s.len + 1) true).map (t :: ·)
+          | b :: r =>
+            match s.withBounds start (start + gFirstChar (b :: r)) with
+            | none => none
+            | some t => (splitLoop s pat fuel (start + gFirstChar (b :: r)) true).map (t :: ·)
+        else
+          match s.withBounds start start with
+          | none => none
+          | some t => (splitLoop s pat fuel start true).map (t :: ·)
+      else
+        match findAt pat (s.bytes.drop start) with
+        | some e =>
+          match s.withBounds start (start + e) with
+          | none => none
+          | some t => (splitLoop s pat fuel (start + e + pat.length) true).map (t :: ·)
+        | none =>
+          match s.withBounds start s.len with
+          | none => none
+          | some t => (splitLoop s pat fuel (s.len + 1) true).map (t :: ·)
     else some []
 
-def splitOp (s : KStr) (pat : Bytes) : Res := strTuple (splitLoop s pat (s.len + 2) 0)
+def splitOp (s : KStr) (pat : Bytes) : Res := strTuple (splitLoop s pat (s.len + 3) 0 false)
 
 /-- scan the clusters of `input[start..]` for the first one satisfying the predicate:
 `(offset of the match relative to start, byte length of the last cluster looked at)` -/
@@ -339,22 +373,30 @@ def scanPred (U : UFacts) (pred : Bytes → Bool) : Nat → Bytes → Nat → Op
       | (some e, gl) => (some e, gl)
       | (none, gl) => (none, if ((b :: r).drop g).isEmpty then g else gl)
 
-/-- `SplitWith::next`, collected. The predicate is applied to each grapheme cluster. -/
-def splitWithLoop (U : UFacts) (pred : Bytes → Bool) (s : KStr) : Nat → Nat → Option (List KStr)
+/-- `SplitWith::next`, collected. The predicate is applied to each grapheme cluster.
+Current code: the loop runs while `start < len` and, when nothing matches, `start` becomes
+`len + (length of the last cluster looked at)` — so a separator at the very end produces **no** trailing
+empty piece (unlike `split(pattern)`; F-C15-6). `keepTrailing = true` describes a tree with
+requests/C15-fix-4.diff applied: the loop runs while `start ≤ len` and ends with `start = len + 1`. -/
+def splitWithLoop (U : UFacts) (pred : Bytes → Bool) (s : KStr) (keepTrailing : Bool := false) :
+    Nat → Nat → Option (List KStr)
   | 0, _ => some []
   | fuel + 1, start =>
-    if start < s.len then
+    if (if keepTrailing then decide (start ≤ s.len) else decide (start < s.len)) then
       let (m, gl) := scanPred U pred (s.len + 1) (s.bytes.drop start) 0
       let e := match m with
         | some e => start + e
         | none => s.len
+      let next := match m with
+        | some e => start + e + gl
+        | none => if keepTrailing then s.len + 1 else s.len + gl
       match s.withBounds start e with
       | none => none
-      | some t => (splitWithLoop U pred s fuel (e + gl)).map (t :: ·)
+      | some t => (splitWithLoop U pred s keepTrailing fuel next).map (t :: ·)
     else some []
 
-def splitWithOp (U : UFacts) (pred : Bytes → Bool) (s : KStr) : Res :=
-  strTuple (splitWithLoop U pred s (s.len + 2) 0)
+def splitWithOp (U : UFacts) (pred : Bytes → Bool) (s : KStr) (keepTrailing : Bool := false) : Res :=
+  strTuple (splitWithLoop U pred s keepTrailing (s.len + 3) 0)
 
 /-! ## lines -/
 
